@@ -6,6 +6,9 @@ package c15
 import (
 	"bytes"
 	"fmt"
+	chainapp "github.com/EscanBE/evermint/v12/app"
+	"github.com/EscanBE/evermint/v12/app/params"
+	evmtypes "github.com/EscanBE/evermint/v12/x/evm/types"
 	"math/big"
 	"os"
 	"os/exec"
@@ -104,6 +107,7 @@ func Run(run *vh.Run) {
 	run.Floor("contracts deleted after receiving value following their SELFDESTRUCT", run.Get("vaults_deleted_after_being_paid_again"), int64(run.N(6, 60)))
 	run.Floor("of these, holding a second denomination", run.Get("vaults_deleted_while_holding_a_second_denomination"), int64(run.N(3, 30)))
 	run.Floor("vaults intact after a SELFDESTRUCT in a rolled-back frame", run.Get("vaults_intact_after_a_reverted_selfdestruct"), int64(run.N(6, 60)))
+	run.Floor("successful transactions touching the storage-only account whose lowest slot holds zero", run.Get("transactions_touching_the_storage_only_account_whose_lowest_slot_is_zero"), int64(run.N(2, 30)))
 	run.Floor("storage written by init code of contracts that self-destruct in their constructor", run.Get("constructor_selfdestructs_after_sstore"), int64(run.N(10, 150)))
 	run.Floor("deletions observed", run.Get("accounts_deleted"), int64(run.N(10, 150)))
 	run.Assumptions = append(run.Assumptions, "delegation of locked coins is not 'spending' (standard vesting semantics); the staking precompile is not part of this workload",
@@ -202,6 +206,19 @@ func world(run *vh.Run, label string, wi, nBlocks int) {
 		accts = append(accts, vh.GenAccount{Addr: a.Addr, Sequence: 3})
 		specials = append(specials, special{addr: a.Addr, desc: "base:nonce-only", key: a})
 	}
+	// accounts that own contract storage and nothing else (no code, nonce 0, no coins): the x/evm genesis accepts them; one
+	// whose lowest slot holds the zero value while a higher slot is live, one with a single live slot, one with a high slot only
+	var storageOnly []evmtypes.GenesisAccount
+	for i, st := range []evmtypes.Storage{
+		{{Key: common.BigToHash(big.NewInt(0)).Hex(), Value: common.Hash{}.Hex()}, {Key: common.BigToHash(big.NewInt(5)).Hex(), Value: common.BigToHash(big.NewInt(7)).Hex()}},
+		{{Key: common.BigToHash(big.NewInt(0)).Hex(), Value: common.BigToHash(big.NewInt(1)).Hex()}},
+		{{Key: common.HexToHash("0xff00000000000000000000000000000000000000000000000000000000000001").Hex(), Value: common.BigToHash(big.NewInt(9)).Hex()}},
+	} {
+		a := vh.NewAcct(r)
+		accts = append(accts, vh.GenAccount{Addr: a.Addr})
+		specials = append(specials, special{addr: a.Addr, desc: fmt.Sprintf("base:storage-only-%d", i), key: a})
+		storageOnly = append(storageOnly, evmtypes.GenesisAccount{Address: a.Addr.Hex(), Storage: st})
+	}
 	for _, name := range []string{authtypes.FeeCollectorName, "distribution", "bonded_tokens_pool", "not_bonded_tokens_pool", "gov", "mint", "transfer", "evm", "vauth", "cpc", "interchainaccounts"} {
 		specials = append(specials, special{addr: common.BytesToAddress(authtypes.NewModuleAddress(name)), desc: "module:" + name})
 	}
@@ -209,7 +226,13 @@ func world(run *vh.Run, label string, wi, nBlocks int) {
 	for _, s := range specials {
 		pool = append(pool, s.addr)
 	}
-	w := vh.NewWorld(r, vh.WorldOpts{Chain: vh.Config{Seed: r.U64(), NumVals: 2, GenesisTime: genesis, BlockStep: step, Accounts: accts, Erc20Native: wi%2 == 0},
+	w := vh.NewWorld(r, vh.WorldOpts{Chain: vh.Config{Seed: r.U64(), NumVals: 2, GenesisTime: genesis, BlockStep: step, Accounts: accts, Erc20Native: wi%2 == 0,
+		MutateGenesis: func(enc params.EncodingConfig, gs chainapp.GenesisState) {
+			var eg evmtypes.GenesisState
+			enc.Codec.MustUnmarshalJSON(gs[evmtypes.ModuleName], &eg)
+			eg.Accounts = append(eg.Accounts, storageOnly...)
+			gs[evmtypes.ModuleName] = enc.Codec.MustMarshalJSON(&eg)
+		}},
 		NumEOA: 5, Prog: vh.ProgOpts{MaxLen: 6, Depth: 1}, ExtraPool: pool})
 	defer w.C.Cleanup()
 	tracked := map[common.Address]string{}
@@ -457,6 +480,12 @@ func check(run *vh.Run, label string, w *vh.World, ob *vh.ObservedBlock, plans [
 					outcome = "failed"
 				}
 				run.Nontrivial(fmt.Sprintf("%s|%s|%s|%s", kind, rel, pl.Note, outcome))
+				if strings.HasPrefix(kind, "base:storage-only") && res.Code == 0 {
+					run.Count("transactions_touching_accounts_that_own_storage_only", 1)
+					if kind == "base:storage-only-0" {
+						run.Count("transactions_touching_the_storage_only_account_whose_lowest_slot_is_zero", 1)
+					}
+				}
 				if isTarget && b.IsVesting {
 					if rel == "expired" {
 						run.Count("touch_expired_vesting", 1)
